@@ -26,6 +26,8 @@ pub fn gen_model(rng: &mut Rng, version: M2Version) -> (M2Model, Vec<Tr>) {
     let pre = version.to_header_version() < 264;
     let mut m = M2Model::default();
     m.header = M2Header::new(version);
+    // model flags decide which optional header fields exist (the header's own length, hence every offset behind it)
+    m.header.flags = wow_m2::header::M2ModelFlags::from_bits_truncate(match rng.below(4) { 0 => 0, 1 => 0x8, 2 => rng.below(0x80) as u32, _ => (rng.below(0x4000) as u32) & !0x2000 });
     m.name = Some(format!("World\\Generic\\{}", "Prop".repeat(rng.range(1, 9) as usize)));
     m.global_sequences = (0..count(rng)).map(|_| rng.below(5000) as u32).collect();
     let nb = count(rng).max(1);
@@ -129,6 +131,7 @@ fn canon(m: &M2Model, bytes: &[u8]) -> Vec<(String, String)> {
     let tr = |t: &wow_m2::chunks::m2_track::M2Track<C3Vector>| format!("{:?}/{}/{}/{:?}", t.base.interpolation_type, hex(&slice(bytes, t.timestamps.offset, t.timestamps.count as usize * 4)), hex(&slice(bytes, t.values.offset, t.values.count as usize * 12)), t.ranges.as_ref().map(|r| hex(&slice(bytes, r.offset, r.count as usize * 8))));
     vec![
         ("name".into(), format!("{:?}", m.name)),
+        ("flags".into(), format!("{:#x}", m.header.flags.bits())),
         ("global sequences".into(), format!("{:?}", m.global_sequences)),
         ("bones".into(), format!("{:?}", m.bones.iter().map(|b| (b.bone_id, b.parent_bone, b.flags.bits(), (b.pivot.x.to_bits(), b.pivot.y.to_bits(), b.pivot.z.to_bits()), tr(&b.translation), tr(&b.scale))).collect::<Vec<_>>())),
         ("preserved bone key frames".into(), format!("{:?}", m.raw_data.bone_animation_data.iter().map(|a| (a.bone_index, a.track_type, hex(&a.timestamps), hex(&a.values), a.ranges.as_ref().map(|r| hex(r)))).collect::<Vec<_>>())),
@@ -157,12 +160,12 @@ fn expected(m: &M2Model, tracks: &[Tr]) -> Vec<(String, String)> {
         Some(x) => format!("{:?}/{}/{}/{:?}", t.base.interpolation_type, hex(&x.ts.1), hex(&x.vals.1), t.ranges.as_ref().map(|_| x.ranges.as_ref().map(|r| hex(&r.1)).unwrap_or_else(|| "-".into()))),
         None => format!("{:?}/-/-/{:?}", t.base.interpolation_type, t.ranges.as_ref().map(|_| "-".to_string())) };
     let mut v = canon(m, &[]);
-    v[2].1 = format!("{:?}", m.bones.iter().enumerate().map(|(i, b)| (b.bone_id, b.parent_bone, b.flags.bits(), (b.pivot.x.to_bits(), b.pivot.y.to_bits(), b.pivot.z.to_bits()), tr(i, TrackType::Translation, &b.translation), tr(i, TrackType::Scale, &b.scale))).collect::<Vec<_>>());
-    v[9].1 = format!("{:?}", m.events.iter().enumerate().map(|(i, e)| (e.identifier, e.data, e.bone_index, m.raw_data.event_data.iter().find(|r| r.event_index == i).map(|r| hex(&r.timestamps)).unwrap_or_else(|| "-".into()), m.raw_data.event_data.iter().find(|r| r.event_index == i).map(|r| hex(&r.ranges)).unwrap_or_else(|| "-".into()))).collect::<Vec<_>>());
-    v[13].1 = format!("{:?}", m.cameras.iter().enumerate().map(|(i, c)| { let k = |tt: CameraTrackType| m.raw_data.camera_animation_data.iter().find(|r| r.camera_index == i && r.track_type == tt).map(|r| format!("{}/{}", hex(&r.timestamps), hex(&r.values))).unwrap_or_else(|| "-/-".into());
+    v[3].1 = format!("{:?}", m.bones.iter().enumerate().map(|(i, b)| (b.bone_id, b.parent_bone, b.flags.bits(), (b.pivot.x.to_bits(), b.pivot.y.to_bits(), b.pivot.z.to_bits()), tr(i, TrackType::Translation, &b.translation), tr(i, TrackType::Scale, &b.scale))).collect::<Vec<_>>());
+    v[10].1 = format!("{:?}", m.events.iter().enumerate().map(|(i, e)| (e.identifier, e.data, e.bone_index, m.raw_data.event_data.iter().find(|r| r.event_index == i).map(|r| hex(&r.timestamps)).unwrap_or_else(|| "-".into()), m.raw_data.event_data.iter().find(|r| r.event_index == i).map(|r| hex(&r.ranges)).unwrap_or_else(|| "-".into()))).collect::<Vec<_>>());
+    v[14].1 = format!("{:?}", m.cameras.iter().enumerate().map(|(i, c)| { let k = |tt: CameraTrackType| m.raw_data.camera_animation_data.iter().find(|r| r.camera_index == i && r.track_type == tt).map(|r| format!("{}/{}", hex(&r.timestamps), hex(&r.values))).unwrap_or_else(|| "-/-".into());
             (c.camera_type, c.fov.to_bits(), c.far_clip.to_bits(), c.near_clip.to_bits(), (c.position_base.x.to_bits(), c.position_base.y.to_bits(), c.position_base.z.to_bits()), (c.target_position_base.x.to_bits(), c.target_position_base.y.to_bits(), c.target_position_base.z.to_bits()),
              k(CameraTrackType::Position), k(CameraTrackType::TargetPosition), k(CameraTrackType::Roll)) }).collect::<Vec<_>>());
-    v[11].1 = format!("{:?}", m.attachments.iter().enumerate().map(|(i, a)| { let r = m.raw_data.attachment_animation_data.iter().find(|r| r.attachment_index == i); (a.id, a.bone_index, a.position.x.to_bits(), a.position.y.to_bits(), a.position.z.to_bits(), r.map(|r| hex(&r.timestamps)).unwrap_or_else(|| "-".into()), r.map(|r| hex(&r.values)).unwrap_or_else(|| "-".into())) }).collect::<Vec<_>>());
+    v[12].1 = format!("{:?}", m.attachments.iter().enumerate().map(|(i, a)| { let r = m.raw_data.attachment_animation_data.iter().find(|r| r.attachment_index == i); (a.id, a.bone_index, a.position.x.to_bits(), a.position.y.to_bits(), a.position.z.to_bits(), r.map(|r| hex(&r.timestamps)).unwrap_or_else(|| "-".into()), r.map(|r| hex(&r.values)).unwrap_or_else(|| "-".into())) }).collect::<Vec<_>>());
     v
 }
 
@@ -279,8 +282,11 @@ pub fn run(ctx: &mut Ctx) {
                 Ok((p2, b2)) => {
                     if to == ver && b2 != bytes { bad = true; ctx.out.oracle(false, "same-version-conversion-changes-bytes", &desc); }
                     let (a, b) = (canon(&parsed, &bytes), canon(&p2, &b2));
-                    for idx in [0usize, 1, 4, 5, 6, 7, 8, 10] { if a[idx].1 != b[idx].1 { bad = true; ctx.out.oracle(false, "conversion-loses-content", &format!("{ver:?}->{to:?} {}: {} vs {} :: {desc}", a[idx].0, &a[idx].1[..a[idx].1.len().min(100)], &b[idx].1[..b[idx].1.len().min(100)])); break; } }
-                    if a[2].1.matches("Linear").count() != b[2].1.matches("Linear").count() || p2.bones.len() != parsed.bones.len() { bad = true; ctx.out.oracle(false, "conversion-loses-content", &format!("{ver:?}->{to:?} bones/animated tracks :: {desc}")); }
+                    let same_side = (ver.to_header_version() < 264) == (to.to_header_version() < 264);
+                    let keep = ["name", "global sequences", "key bone lookup", "vertices", "materials", "textures", "transparency", "attachments", "camera lookup"];
+                    for idx in (0..a.len()).filter(|i| keep.contains(&a[*i].0.as_str()) || (same_side && a[*i].0 == "events")) { if a[idx].1 != b[idx].1 { bad = true; ctx.out.oracle(false, "conversion-loses-content", &format!("{ver:?}->{to:?} {}: {} vs {} :: {desc}", a[idx].0, &a[idx].1[..a[idx].1.len().min(100)], &b[idx].1[..b[idx].1.len().min(100)])); break; } }
+                    let bi = a.iter().position(|x| x.0 == "bones").unwrap_or(0);
+                    if a[bi].1.matches("Linear").count() != b[bi].1.matches("Linear").count() || p2.bones.len() != parsed.bones.len() { bad = true; ctx.out.oracle(false, "conversion-loses-content", &format!("{ver:?}->{to:?} bones/animated tracks :: {desc}")); }
                 }
                 Err(e) => { bad = true; ctx.out.oracle(false, "converted-model-does-not-round-trip", &format!("{ver:?}->{to:?}: {e} :: {desc}")); }
             },
